@@ -429,14 +429,13 @@ def c10_estimate_units(ctx):
                found=[x[:200] for x in steps], where=fi.sp)
 
 
-def c10_accumulator(ctx):
+def c10_accumulator(ctx, R="C10.2"):
     """'the finalized generator decodes to exactly the spends of the accepted attempts': within one add attempt every spend of
     every bundle of the batch is prepended to ONE running list -- `spend_list = cons(item, spend_list)` -- that starts from the
     builder's committed list (interned: self.spend_list, compressed: the sentinel the serializer resumes from) and is what gets
     committed (interned: self.spend_list = spend_list; compressed: ser.add(spend_list)).  A per-bundle accumulator restarted from
     the committed list keeps only the last bundle of a multi-bundle batch."""
     from .. import apnf
-    R = "C10.2"
     fb = ctx.fb
     for nm, path, init, commit in (("compressed", CB + "::add_spend_bundles", "('.sentinel', 'self')", "ser.add"),
                                    ("interned", IB + "::add_spend_bundles", "('.spend_list', 'self')", "field")):
